@@ -14,7 +14,9 @@ import Mathlib.Tactic.NormNum
   * the criterion is `rss` (`make_score` = `cmax rss K`, `K` = `1e3·ε`); AIC/AICc/BIC need `log` and are only tested;
   * `cols` = the features a fit loops over, each with the rows (value, residual) of the fitted samples; every
     candidate remembers its feature; `fitSeq big cands` is what one thread returns, `fit_assignment_independent` makes
-    the result independent of the thread assignment when the best candidate is unique.
+    the result independent of the thread assignment (ties included: `min_reduce_feature` breaks them by the feature index;
+    `table_fit_assignment_independent`: the table learners' lexicographic caches need no order hypothesis;
+    `old_fit_assignment_dependent`: the score-only rule before commit 62472c9 did depend on it).
 -/
 set_option linter.unusedSectionVars false
 set_option linter.unusedVariables false
@@ -371,15 +373,86 @@ theorem fit_predict_reproduces_rss [Log α] (sort : List (Item α) → List (Ite
 
 /-! ### threads -/
 
-/-- `min_reduce` over the per-thread caches returns the candidate a single thread returns, for every assignment of the
-    candidates to workers (every candidate is seen by exactly one worker: `hperm`, the pool's contract C17) and every
-    order in which a worker sees its candidates, when the minimal score is attained by one candidate only. -/
-theorem fit_assignment_independent [FinTest α] (big : α) (cands : List (Cand α)) (workers : List (List (Cand α)))
-    (hperm : workers.flatten.Perm cands) (c0 : Cand α) (h0 : c0 ∈ cands)
-    (hf0 : FinTest.isFin c0.score = true) (hb : c0.score < big)
-    (huniq : ∀ c ∈ cands, c ≠ c0 → FinTest.isFin c.score = true → c0.score < c.score) :
-    fitAssigned big workers = c0 ∧ fitSeq big cands = c0 :=
-  fit_assignment_independent_cands big cands workers hperm c0 h0 hf0 hb huniq
+/-- `min_reduce_feature` over the per-thread caches (reduce.h, commit 62472c9) returns the candidate a single thread
+    returns. `feats` = the features a fit loops over in increasing index order, each with its candidates in the order of its
+    sweep, every candidate remembering its feature (`hidx`: `stumpCands … f rows`, `hingeFeatureCands`, `affineCand`,
+    `denseCand`, `dstepCand` all set `feature := f`); `workers` = per worker, the features it processed, in its order.
+    Every feature is processed by exactly one worker (`hperm`, the pool's contract C17) and every worker processes ITS
+    features in increasing index order (`WorkersSorted`, decidable; what `pool_t::map` produces). NO hypothesis on the
+    scores — exact ties between features / thresholds are allowed, non-finite scores and scores ≥ `big` too. Then for
+    EVERY such assignment, any number of workers (none included):
+      * the fit returns exactly what one thread seeing all features in order returns, and
+      * that is the empty cache iff no candidate is storable (finite, below `no_fit_score()`), otherwise a storable candidate
+        with the minimal score and, among those with the minimal score, the smallest feature index. -/
+theorem fit_assignment_independent [FinTest α] (big : α) (feats : List (FeatC α)) (workers : List (List (FeatC α)))
+    (hidx : ∀ p ∈ feats, ∀ c ∈ p.2, c.feature = p.1) (hinc : (feats.map Prod.fst).Pairwise (· < ·))
+    (hperm : workers.flatten.Perm feats) (hsorted : WorkersSorted workers) :
+    fitAssigned big (workers.map streamC) = fitSeq big (streamC feats) ∧
+    ((fitSeq big (streamC feats) = noFit big ∧
+        ∀ y ∈ streamC feats, ¬ (FinTest.isFin y.score = true ∧ y.score < big)) ∨
+     (fitSeq big (streamC feats) ∈ streamC feats ∧
+        (FinTest.isFin (fitSeq big (streamC feats)).score = true ∧ (fitSeq big (streamC feats)).score < big) ∧
+        ∀ y ∈ streamC feats, (FinTest.isFin y.score = true ∧ y.score < big) →
+          (fitSeq big (streamC feats)).score ≤ y.score ∧
+          (y.score = (fitSeq big (streamC feats)).score → (fitSeq big (streamC feats)).feature ≤ y.feature))) := by
+  have h1 := fitAssigned_sorted big feats workers hidx hinc hperm hsorted
+  have h2 := fitSeq_sorted big feats hidx hinc
+  exact ⟨bestC_unique big _ _ _ h1 h2, bestC_lexmin big feats hidx _ h2⟩
+
+/-- The TABLE learners (dense, discrete-step; k-best / k-split use the same cache): since commit 5de0896 their per-thread
+    caches use the lexicographic test of `min_reduce_feature` too (`pickLex`), because a table fit runs two loops (single-label,
+    then multi-label features) into the same caches and a cache may see feature indices out of order. NO hypothesis on the
+    order in which a worker sees its features and none on the scores: `feats` in any order with pairwise distinct indices,
+    `workers` ANY distribution of them (`hperm`), each worker in ANY order. The fit returns what one cache seeing `feats` in
+    the given order returns, and that is the lexicographic minimum of (score, feature index) over the storable candidates. -/
+theorem table_fit_assignment_independent [FinTest α] (big : α) (feats : List (FeatC α)) (workers : List (List (FeatC α)))
+    (hidx : ∀ p ∈ feats, ∀ c ∈ p.2, c.feature = p.1) (hnd : (feats.map Prod.fst).Nodup)
+    (hperm : workers.flatten.Perm feats) :
+    fitAssignedLex big (workers.map streamC) = fitSeqLex big (streamC feats) ∧
+    ((fitSeqLex big (streamC feats) = noFit big ∧
+        ∀ y ∈ streamC feats, ¬ (FinTest.isFin y.score = true ∧ y.score < big)) ∨
+     (fitSeqLex big (streamC feats) ∈ streamC feats ∧
+        (FinTest.isFin (fitSeqLex big (streamC feats)).score = true ∧ (fitSeqLex big (streamC feats)).score < big) ∧
+        ∀ y ∈ streamC feats, (FinTest.isFin y.score = true ∧ y.score < big) →
+          (fitSeqLex big (streamC feats)).score ≤ y.score ∧
+          (y.score = (fitSeqLex big (streamC feats)).score → (fitSeqLex big (streamC feats)).feature ≤ y.feature))) := by
+  have h1 := fitAssignedLex_any big feats workers hidx hnd hperm
+  have h2 := fitSeqLex_any big feats hidx hnd
+  exact ⟨bestC_unique big _ _ _ h1 h2, bestC_lexmin big feats hidx _ h2⟩
+
+/-- On features visited in increasing index order (what the correspondence run feeds the model, and what the theorems
+    `table_fit_eq_brute` / `dstep_fit_optimal` are stated about) the lexicographic cache of the table learners returns exactly
+    what the first-best cache returns. -/
+theorem table_cache_eq_first_best [FinTest α] (big : α) (feats : List (FeatC α))
+    (hidx : ∀ p ∈ feats, ∀ c ∈ p.2, c.feature = p.1) (hinc : (feats.map Prod.fst).Pairwise (· < ·)) :
+    fitSeqLex big (streamC feats) = fitSeq big (streamC feats) :=
+  bestC_unique big _ _ _ (fitSeqLex_any big feats hidx (hinc.imp (fun h => Nat.ne_of_lt h)))
+    (fitSeq_sorted big feats hidx hinc)
+
+/-- The rule BEFORE commit 62472c9 (`min_reduce`: score only, `fitAssignedOld`) depends on the assignment under an exact
+    tie, on index-sorted workers: features 0 and 2 tie on the minimal score 1 and sit on different workers — the cache of
+    the lower worker id wins, whichever feature it holds; the present rule gives feature 0 both times. -/
+theorem old_fit_assignment_dependent :
+    ∃ (_ : FinTest ℚ) (feats : List (FeatC ℚ)) (workers workers' : List (List (FeatC ℚ))),
+      (∀ p ∈ feats, ∀ c ∈ p.2, c.feature = p.1) ∧ (feats.map Prod.fst).Pairwise (· < ·) ∧
+      workers.flatten.Perm feats ∧ workers'.flatten.Perm feats ∧ WorkersSorted workers ∧ WorkersSorted workers' ∧
+      (fitAssignedOld (10 : ℚ) (workers.map streamC)).feature = 0 ∧
+      (fitAssignedOld (10 : ℚ) (workers'.map streamC)).feature = 2 ∧
+      (fitAssigned (10 : ℚ) (workers.map streamC)).feature = 0 ∧
+      (fitAssigned (10 : ℚ) (workers'.map streamC)).feature = 0 := by
+  let c0 : Cand ℚ := ⟨1, 1, 0, 0, 0, [], [], []⟩
+  let c2 : Cand ℚ := ⟨1, 1, 2, 0, 0, [], [], []⟩
+  refine ⟨⟨fun _ => true⟩, [(0, [c0]), (2, [c2])], [[(0, [c0])], [(2, [c2])]], [[(2, [c2])], [(0, [c0])]],
+    ?_, ?_, ?_, ?_, ?_, ?_, ?_, ?_, ?_, ?_⟩
+  · simp [c0, c2]
+  · simp
+  · exact List.Perm.refl _
+  · exact List.Perm.swap _ _ _
+  · simp [WorkersSorted]
+  · simp [WorkersSorted]
+  all_goals
+    simp [fitAssignedOld, fitAssigned, streamC, fitSeq, pick, noFit, minReduceOld, minReduce, lessSF, FinTest.isFin, c0, c2]
+    try norm_num
 
 /-! ### predict / split / scale / merge (all learners, including k-best / k-split tables and decision trees) -/
 
@@ -486,11 +559,34 @@ example : affineConst (1 / 100000000000 : ℚ)
   simp [present, affineConst, Item.upd, Mom.upd, Mom.zero]
   norm_num
 
-/-- a unique minimiser exists (hypotheses of `fit_assignment_independent`): two candidates with scores 1 < 2 -/
-example : ∃ (c0 c1 : Cand ℚ), c0.score < c1.score ∧ fitAssigned (10 : ℚ) [[c1], [], [c0]] = c0 := by
-  refine ⟨⟨1, 1, 0, 0, 0, [], [], []⟩, ⟨2, 2, 1, 0, 0, [], [], []⟩, by norm_num, ?_⟩
-  simp [fitAssigned, fitSeq, pick, noFit, minReduce, FinTest.isFin]
-  norm_num
+/-- the hypotheses of `fit_assignment_independent` are satisfiable with an exact tie spread over two workers (features 0 and 2
+    both score 1; the worker with the lower id holds feature 2): the fit returns feature 0 -/
+example :
+    let c0 : Cand ℚ := ⟨1, 1, 0, 0, 0, [], [], []⟩
+    let c1 : Cand ℚ := ⟨3, 3, 1, 0, 0, [], [], []⟩
+    let c2 : Cand ℚ := ⟨1, 1, 2, 0, 0, [], [], []⟩
+    let feats : List (FeatC ℚ) := [(0, [c0]), (1, [c1]), (2, [c2])]
+    let workers : List (List (FeatC ℚ)) := [[(2, [c2])], [], [(0, [c0]), (1, [c1])]]
+    (∀ p ∈ feats, ∀ c ∈ p.2, c.feature = p.1) ∧ (feats.map Prod.fst).Pairwise (· < ·) ∧ WorkersSorted workers ∧
+    workers.flatten.Perm feats ∧ (fitAssigned (10 : ℚ) (workers.map streamC)).feature = 0 := by
+  refine ⟨by simp, by simp, by simp [WorkersSorted], ?_, ?_⟩
+  · simp only [List.flatten_cons, List.flatten_nil, List.nil_append, List.append_nil, List.cons_append]
+    exact (List.perm_middle (l₁ := [(0, [_]), (1, [_])]) (l₂ := [])).symm.trans (by simp)
+  · simp [fitAssigned, streamC, fitSeq, pick, noFit, minReduce, lessSF, FinTest.isFin]
+    try norm_num
+
+/-- the table variant: the worker that holds the tying features 3 and 0 sees them in DEcreasing order (two loops); the
+    lexicographic cache returns feature 0, the first-best cache of before 5de0896 would keep feature 3 -/
+example :
+    let m0 : Cand ℚ := ⟨1, 1, 0, 0, 0, [], [], []⟩
+    let s1 : Cand ℚ := ⟨1, 1, 3, 0, 0, [], [], []⟩
+    let workers : List (List (FeatC ℚ)) := [[(3, [s1]), (0, [m0])]]
+    (fitAssignedLex (10 : ℚ) (workers.map streamC)).feature = 0 ∧ (fitAssigned (10 : ℚ) (workers.map streamC)).feature = 3 := by
+  constructor
+  · simp [fitAssignedLex, streamC, fitSeqLex, pickLex, noFit, minReduce, lessSF, FinTest.isFin]
+    try norm_num
+  · simp [fitAssigned, streamC, fitSeq, pick, noFit, minReduce, lessSF, FinTest.isFin]
+    try norm_num
 
 /-- merging two affine learners on the same feature gives one learner -/
 example : (merge [Learner.affine 0 [fun _ => (1 : ℚ), fun _ => 2], Learner.affine 0 [fun _ => 3, fun _ => 4]]).length = 1 := by
